@@ -1661,7 +1661,7 @@ impl From<OutboundIn> for BytesMut {
         }
     }
 
-//@@ octo-squirrel-server/src/server/shadowsocks.rs:338-343  mod tcp / struct PayloadCodec  sha=0a0deb8ebe3d5147
+//@@ octo-squirrel-server/src/server/shadowsocks.rs:343-348  mod tcp / struct PayloadCodec  sha=0a0deb8ebe3d5147
 pub struct sssrv__PayloadCodec<const N: usize> {
         context: Arc<Context<N>>,
         session: Session<N>,
@@ -1669,13 +1669,13 @@ pub struct sssrv__PayloadCodec<const N: usize> {
         state: sssrv__State,
     }
 
-//@@ octo-squirrel-server/src/server/shadowsocks.rs:345-348  mod tcp / enum State  sha=d8ea95c44e9c2239
+//@@ octo-squirrel-server/src/server/shadowsocks.rs:350-353  mod tcp / enum State  sha=d8ea95c44e9c2239
 enum sssrv__State {
         Header,
         Body,
     }
 
-//@@ octo-squirrel-server/src/server/shadowsocks.rs:350-355  mod tcp / impl PayloadCodec  sha=f3c70b3003054fc0
+//@@ octo-squirrel-server/src/server/shadowsocks.rs:355-360  mod tcp / impl PayloadCodec  sha=f3c70b3003054fc0
 impl<const N: usize> sssrv__PayloadCodec<N> {
         fn new(context: Arc<Context<N>>, mode: Mode, address: Option<Address>) -> Self {
             let session = Session::new(mode, Identity::default(), address);
@@ -1683,7 +1683,7 @@ impl<const N: usize> sssrv__PayloadCodec<N> {
         }
     }
 
-//@@ octo-squirrel-server/src/server/shadowsocks.rs:357-363  mod tcp / impl Encoder for PayloadCodec  sha=b2d35db0ddf93f3b
+//@@ octo-squirrel-server/src/server/shadowsocks.rs:362-368  mod tcp / impl Encoder for PayloadCodec  sha=b2d35db0ddf93f3b
 impl<const N: usize> sssrv__PayloadCodec<N> {
 
         fn encode(&mut self, item: OutboundIn, dst: &mut BytesMut) -> Result<()> {
@@ -1691,7 +1691,7 @@ impl<const N: usize> sssrv__PayloadCodec<N> {
         }
     }
 
-//@@ octo-squirrel-server/src/server/shadowsocks.rs:365-389  mod tcp / impl Decoder for PayloadCodec  sha=55359f5fea8781a0
+//@@ octo-squirrel-server/src/server/shadowsocks.rs:370-394  mod tcp / impl Decoder for PayloadCodec  sha=55359f5fea8781a0
 impl<const N: usize> sssrv__PayloadCodec<N> {
 
         fn decode(&mut self, src: &mut BytesMut, Tracked(vcache): Tracked<&mut SaltCache>) -> Result<Option<InboundIn>> {
@@ -1890,11 +1890,11 @@ impl<const N: usize> Client<'_, N> {
         }
     }
 
-//@@ octo-squirrel-server/src/server/shadowsocks.rs:315-316  mod tcp / struct ServerContext  sha=e2f8b9f4fe8a2fbd
+//@@ octo-squirrel-server/src/server/shadowsocks.rs:320-321  mod tcp / struct ServerContext  sha=e2f8b9f4fe8a2fbd
 #[derive(Clone)]
     pub struct ServerContext<const N: usize>(Arc<Context<N>>);
 
-//@@ octo-squirrel-server/src/server/shadowsocks.rs:318-330  mod tcp / impl ServerContext  sha=8a129de5264a3aff
+//@@ octo-squirrel-server/src/server/shadowsocks.rs:323-335  mod tcp / impl ServerContext  sha=8a129de5264a3aff
 impl<const N: usize> ServerContext<N> {
         fn init(config: &ServerConfig<SslConfig>, user_manager: Arc<ServerUserManager<N>>) -> Result<Self> {
             let kind = config.cipher;
@@ -1921,7 +1921,7 @@ struct UdpAssociateContext<const N: usize> {
     user: Option<Arc<ServerUser<N>>>,
 }
 
-//@@ octo-squirrel-server/src/server/shadowsocks.rs:201-291  impl UdpAssociateContext {fn relay,fn validate_packet_id}  sha=9b98a3caaec76dc1
+//@@ octo-squirrel-server/src/server/shadowsocks.rs:201-296  impl UdpAssociateContext {fn relay,fn validate_packet_id}  sha=83f5dd0af9b9d8fe
 impl<const N: usize> UdpAssociateContext<N> {
 
     fn relay(&mut self, mut receiver: Receiver<(BytesMut, Address, udp__Session<N>)>, Tracked(vlog): Tracked<&mut AssocLog>) {
@@ -1967,6 +1967,11 @@ impl<const N: usize> UdpAssociateContext<N> {
                                     break;
                                 },
                             };
+                            // a session belongs to the user who opened it: a datagram of another user that carries its session id is not served here
+                            if self.user.is_some() && self.user != session.user {
+                                /*R2*/
+                                continue;
+                            }
                             if !self.validate_packet_id(session.packet_id) {
                                 // a duplicate or stale packet is dropped; the session goes on
                                 /*R2*/
